@@ -142,6 +142,7 @@ void inst(rgb8_view_t const& a, rgb8_planar_view_t const& p, k_xystep const& s, 
   (void)(i1 == i2); (void)(i1 != i1);
   fill_pixels(p, bgr8_pixel_t()); fill_pixels(ps, bgr8_pixel_t()); fill_pixels(a, bgr8_pixel_t()); fill_pixels(p, rgb8_pixel_t());
 }
+void inst_f(rgb32f_view_t const& f, rgb32f_planar_view_t const& fp, rgb32f_image_t const& fi){ (void)equal_pixels(f, f); (void)equal_pixels(fp, fp); (void)equal_pixels(f, fp); (void)(fi == fi); }
 '''
 
 
@@ -155,7 +156,7 @@ def ast_rules(rep):
     src = os.path.join(wd, "c04_ast.cpp")
     open(src, "w").write(DRIVER)
     d = C.astdump(src, os.path.join(wd, "c04.json"),
-                  ["^std::(copy|copy1|fill|equal)$", "^boost::gil::detail::(copy_with_2d_iterators|copier_n::operator\\(\\)|equal_n_fn::operator\\(\\)|fill_aux|destruct_aux|default_construct_aux|uninitialized_fill_aux|uninitialized_copy_aux|copy_and_convert_pixels_fn::apply_(in)?compatible)$",
+                  ["^std::(copy|copy1|fill|equal)$", "^boost::gil::detail::(copy_with_2d_iterators|copier_n::operator\\(\\)|equal_n_fn::(operator\\(\\)|equal)|fill_aux|destruct_aux|default_construct_aux|uninitialized_fill_aux|uninitialized_copy_aux|copy_and_convert_pixels_fn::apply_(in)?compatible)$",
                    "^boost::gil::(copy_pixels|fill_pixels|equal_pixels|for_each_pixel|for_each_pixel_position|generate_pixels|transform_pixels|transform_pixel_positions|destruct_pixels|default_construct_pixels|uninitialized_fill_pixels|uninitialized_copy_pixels|operator==|operator!=)$",
                    "^boost::gil::detail::default_construct_pixels_impl$"],
                   extra=[])
@@ -416,6 +417,50 @@ def ast_rules(rep):
         else:
             rep.ok("G7-semantic-pairing", key, {"accessors": uses, "permuted": permuted})
     rep.floor("obligations:G7", 2)
+    # ---- G8 one functor object for the whole view
+    rep.rule("G8 generate_pixels: the generator is one object for the whole view -- inside the row loop it is not handed by value to an algorithm "
+             "(std::generate copies it: a stateful generator would restart on every row of a view that is not 1-D traversable); accepted: std::ref(fun), or calling fun() in the loop")
+    for f in fns:
+        if f["name"] != "boost::gil::generate_pixels":
+            continue
+        g = R.canonize(f)
+        bad, okc = [], []
+        for c, pth in R.calls_in(g["body"], lambda n: n in ("std::generate", "std::generate_n")):
+            in_loop = any(a.get("k") in ("For", "While", "Do") and fld == "body" for a, fld, _ in pth)
+            last = R.key(c["args"][-1])
+            by_value = not (c["callee"].get("ptypes") or [""])[-1].rstrip().endswith("&")
+            if in_loop and last == "$1" and by_value:
+                bad.append({"call": R.key(c)[:120], "line": c.get("line")})
+            else:
+                okc.append(R.key(c)[:80])
+        rep.count("obligations:G8")
+        key = "G8:generate_pixels:%s" % short(f["params"][0]["type"])[:50]
+        if bad:
+            rep.violation("G8-functor-state", key, R.fn_where(f), {"copies_per_row": bad, "example": "a counting generator gives 0 1 2 | 0 1 2 on a 3x2 sub-view and 0 1 2 | 3 4 5 on a contiguous 3x2 image"})
+        else:
+            rep.ok("G8-functor-state", key, okc)
+    rep.floor("obligations:G8", 2)
+    # ---- G3b memcmp only where the bit pattern is the value
+    rep.rule("G3b the memcmp fast paths of equal_pixels are instantiated only for integral channels: for floating point channels bitwise comparison is not operator== "
+             "(-0.f == 0.f, NaN != NaN), and other view pairs of the same data already use operator==")
+    n3 = 0
+    for f in fns:
+        if f.get("body") is None or not R.calls_in(f["body"], lambda n: n in ("memcmp", "std::memcmp")):
+            continue
+        txt = f.get("cls", "") + " " + f.get("full", "")
+        m = re.search(r"(?:boost::gil::)?pixel<\s*((?:[^,<>]|<(?:[^<>]|<[^<>]*>)*>)+),", txt) or re.search(r"planar_pixel_iterator<\s*((?:[^,<>*]|<(?:[^<>]|<[^<>]*>)*>)+?)\s*\*", txt)
+        chan = m.group(1).replace("const ", "").strip() if m else None
+        n3 += 1
+        rep.count("obligations:G3b")
+        key = "G3b:%s:%s:%s" % (f["name"].split("boost::gil::")[-1], "planar" if "planar_pixel_iterator" in f.get("cls", "") else "interleaved", chan)
+        integral = chan in ("unsigned char", "signed char", "char", "unsigned short", "short", "unsigned int", "int", "unsigned long", "long")
+        if chan is None:
+            rep.incon("G3b-memcmp-integral", key, {"unrecognised": f.get("full", "")[:120]})
+        elif integral:
+            rep.ok("G3b-memcmp-integral", key, "integral channel")
+        else:
+            rep.violation("G3b-memcmp-integral", key, R.fn_where(f), {"channel": chan, "example": "rgb32f (0,0,0) and (-0,0,0): the pixels compare equal, equal_pixels returns false; two views holding the same NaN compare equal"})
+    rep.floor("obligations:G3b", 3)
 
 
 def loop_from_zero(loop):
